@@ -16,6 +16,7 @@ mod c15;
 mod c16;
 mod c17;
 mod c18;
+mod dgen;
 mod driver;
 mod procs;
 mod codecgen;
